@@ -267,6 +267,14 @@ func c09Check(c c09Case) (out kit.Outcome) {
 		out.Violate("C09/no-episode", "no shutdown episode observed (anchor=%v return=%v); trace: %s", anchor != nil, opRet != nil, tr.brief(40))
 		return out
 	}
+	for i := range tr.Events {
+		if e := &tr.Events[i]; e.Kind == "sup.exec" && e.Seq > anchor.Seq {
+			// a starved host: the initialisation had not even launched its processes when the trigger came (the scenario
+			// gives a stuck initialisation 80 ms to get as far as it will)
+			out.Inconclusive = fmt.Sprintf("the environment was still starting when the trigger came (%s launched after it)", e.Proc)
+			return out
+		}
+	}
 	if c.Trigger == "timeout" && (opRet.Status != 200 || !strings.HasPrefix(opRet.Text, "Task timed out")) {
 		out.Violate("C09/setup-timeout", "the triggering invocation should have timed out; got %d %q", opRet.Status, clip(opRet.Text, 100))
 		return out
